@@ -7,6 +7,7 @@ import Std.Data.HashMap
 import AstGrepVerif.Model.Pattern
 import AstGrepVerif.Lemmas.MatchSound
 import AstGrepVerif.Props.C02
+import AstGrepVerif.Spec.AlignB
 
 open Lean AGV
 
@@ -151,7 +152,18 @@ def opPatternWf : SHandler := fun st a => do
   let p ← parsePattern (← a.getObjVal? "p")
   pure (st, Json.bool p.wf)
 
+/-- C03 oracle: a reported match must be an alignment in the sense of `Spec.Aligns`, decided by
+the backtracking procedure `Spec.alignsB` (independent of the matcher's control flow) -/
+def opOracleAligns : SHandler := fun st a => do
+  let d ← getDoc st a
+  let n ← getNode d a
+  let p ← parsePattern (← a.getObjVal? "p")
+  let s ← parseStrictness (← getStr a "s")
+  if !p.wf || p.size * n.size > 6000 then pure (st, Json.str "skip")
+  else pure (st, Json.bool (Spec.alignsB s d.src (Spec.alignFuel p n) p n))
+
 def treeOps : List (String × SHandler) := [
+  ("oracle:aligns", opOracleAligns),
   ("pattern_wf", opPatternWf), ("info:holes_ok", opHolesOK),
   ("tree", opTree), ("cut_shape", opCutShape), ("match", opMatch)]
 
